@@ -32,6 +32,9 @@ pub struct Case {
     pub kind: Kind,
     pub trailing: Trailing,
     pub sizes: Vec<u32>,
+    /// > 0 (LZMA2 only): read with LZMA2ReaderMT and this many workers (real threads)
+    #[serde(default)]
+    pub mt_workers: u8,
 }
 
 pub struct C16;
@@ -107,9 +110,11 @@ impl Property for C16 {
             kind,
             trailing_strategy(),
             read_sizes_strategy(),
+            prop_oneof![1 => Just(0u8), 1 => 1u8..=3],
         )
-            .prop_map(|(data, kind, trailing, sizes)| Case {
+            .prop_map(|(data, kind, trailing, sizes, mt)| Case {
                 data,
+                mt_workers: if matches!(kind, Kind::Lzma { framing: Framing::Lzma2 { .. }, .. }) && !cfg!(lzma_rust2_verif_shuttle) { mt } else { 0 },
                 kind,
                 trailing,
                 sizes,
@@ -159,6 +164,22 @@ impl Property for C16 {
                 let framing = framing.clone();
                 let n = data.len();
                 match framing {
+                    #[cfg(not(lzma_rust2_verif_shuttle))]
+                    Framing::Lzma2 { .. } if case.mt_workers > 0 => {
+                        obs.class("lzma2");
+                        obs.class("lzma2_mt_reader");
+                        let workers = case.mt_workers as u32;
+                        no_panic("lzma2-mt-decode", move || {
+                            // the MT reader has no into_inner: it borrows the cursor
+                            let mut c = Cursor::new(f);
+                            let res = {
+                                let mut r = lzma_rust2::LZMA2ReaderMT::new(&mut c, opts.dict_size, None, workers);
+                                let res = read_all(&mut r, &sizes, cap);
+                                poll_after_eos(&mut r, res)
+                            };
+                            (res, c.position() as usize)
+                        })?
+                    }
                     Framing::Lzma2 { .. } => {
                         obs.class("lzma2");
                         no_panic("lzma2-decode", move || {
